@@ -294,3 +294,11 @@ Proof.
     change (info CSGE) with (Some (false, true, false)). cbn [view] in *. rewrite E. do 2 eexists. split; [reflexivity|].
     eapply in_bound_sound with (X := sgn size x); eauto.
 Qed.
+
+(* the pipeline computes, and its hypotheses are satisfiable: x < 5 and 5 >= x for a plain 3-bit variable, x >s 6 (= -2) *)
+Example simple_bounds_examples :
+  simple_bounds CULT false 3 5 0 7 = Some (true, 0, 4) /\
+  simple_bounds CUGE true 3 5 0 7 = Some (true, 0, 5) /\
+  simple_bounds CSGT false 3 6 (-4) 3 = Some (true, -1, 3) /\
+  in_bound 3 (-1) 3 7 = true /\ in_bound 3 (-1) 3 6 = false.
+Proof. repeat split; vm_compute; reflexivity. Qed.
